@@ -1,0 +1,41 @@
+//go:build verif
+
+package isaacdatabase
+
+import (
+	"context"
+
+	"github.com/spikeekips/mitum/base"
+)
+
+// Verif hooks (build tag verif, add-only): the periodic maintenance steps of Center.start,
+// callable one at a time, and a view of the temp database heights.
+
+// VerifMergePermanent runs one mergePermanent step (what the ticker in start() does).
+func (db *Center) VerifMergePermanent(ctx context.Context) (bool, error) {
+	return db.mergePermanent(ctx)
+}
+
+// VerifCleanRemoved runs cleanRemoved(limit) (start() uses limit 3).
+func (db *Center) VerifCleanRemoved(limit int) error {
+	return db.cleanRemoved(limit)
+}
+
+// VerifTempHeights returns the heights of the active temps (newest first) and of the removed,
+// not yet cleaned temps (oldest first).
+func (db *Center) VerifTempHeights() (temps, removed []base.Height) {
+	db.l.RLock()
+	defer db.l.RUnlock()
+
+	temps = make([]base.Height, len(db.temps))
+	for i := range db.temps {
+		temps[i] = db.temps[i].Height()
+	}
+
+	removed = make([]base.Height, len(db.removed))
+	for i := range db.removed {
+		removed[i] = db.removed[i].Height()
+	}
+
+	return temps, removed
+}
